@@ -63,6 +63,39 @@ def mutable_ids(root):
     return seen
 
 
+def alias_sig(root):
+    """the sharing pattern of the mutable objects reachable from `root`: objects are numbered in the
+    order a fixed traversal first meets them; the signature is the sequence of numbers met (a second
+    reference to an object repeats its number).  deepcopy and pickle preserve it."""
+    num = {}
+    sig = []
+    stack = [root]
+    while stack:
+        o = stack.pop()
+        if isinstance(o, _IMMUTABLE) or isinstance(o, type):
+            continue
+        if isinstance(o, tuple):
+            stack.extend(reversed(o))
+            continue
+        if id(o) in num:
+            sig.append(num[id(o)])
+            continue
+        num[id(o)] = len(num)
+        sig.append(num[id(o)])
+        if isinstance(o, list):
+            stack.extend(reversed(o))
+        elif isinstance(o, (set, dict)):
+            continue
+        else:
+            vals = []
+            for klass in type(o).__mro__:
+                for sl in getattr(klass, "__slots__", ()):
+                    if sl != "__weakref__" and hasattr(o, sl):
+                        vals.append(getattr(o, sl))
+            stack.extend(reversed(vals))
+    return sig
+
+
 def same(a, b, coords):
     return dump(a, coords) == dump(b, coords)
 
@@ -156,6 +189,27 @@ def check(text):
         sh = [k for i, k in mutable_ids(tree).items() if i in ids]
         if sh:
             return (rp, "%s shares mutable objects with the original: %s" % (what, sorted(set(sh))[:3]))
+    # rebuilt trees are independent of each other too, and have the sharing pattern of the original
+    # (an object referenced twice in the original is referenced twice in the copy, two objects stay two)
+    try:
+        d2 = copy.deepcopy(ast)
+        blob = pickle.dumps(ast, protocol=pickle.HIGHEST_PROTOCOL)
+        p2 = pickle.loads(blob)
+    except RecursionError:
+        d2 = p2 = blob = None
+    if d2 is not None:
+        trees = [("deep copy", d), ("second deep copy", d2), ("tree rebuilt by pickle", p), ("second tree rebuilt by pickle", p2)]
+        trees = [(w, t) for w, t in trees if t is not None]
+        idsets = [(w, mutable_ids(t)) for w, t in trees]
+        for i in range(len(idsets)):
+            for j in range(i + 1, len(idsets)):
+                sh = [k for x, k in idsets[j][1].items() if x in idsets[i][1]]
+                if sh:
+                    return (rp, "%s and %s share mutable objects: %s" % (idsets[i][0], idsets[j][0], sorted(set(sh))[:3]))
+        sig0 = alias_sig(ast)
+        for w, t in trees:
+            if alias_sig(t) != sig0:
+                return (rp, "%s does not have the sharing pattern of the original (objects that were distinct became one, or the reverse)" % w)
     before = dump(ast, True)
     if d.ext:
         d.ext.pop()
@@ -168,6 +222,11 @@ def check(text):
                 setattr(n, slot, "MUTATED")
     if dump(ast, True) != before:
         return (rp, "mutating the deep copy changed the original")
+    if d2 is not None:
+        if dump(d2, True) != before or dump(p2, True) != before:
+            return (rp, "mutating one rebuilt tree changed another rebuilt tree")
+        if dump(pickle.loads(blob), True) != before:
+            return (rp, "a pickle written before a copy was mutated loads as a different tree afterwards")
     return (rp, None)
 
 
@@ -216,7 +275,7 @@ def _dump_of(t):
 
 def run(ctx):
     texts = [t for t in progs.pool(ctx, scale=0.3) if len(t) < 5000] + EXTRA
-    ctx.rule(progs.RULE + "; plus programs with quotes, backslashes and non-ASCII characters in literals, empty blocks and absent children, and coordinates beyond 16 / 32 bits (a 70 000-character line, line numbers up to 2^40, a 600-character file name): eval(repr(ast)) in the namespace of c_ast (structural equality, generated text), pickle protocols 2..HIGHEST and copy.deepcopy (equality incl. coordinates, generated text, no mutable object - node, list or coordinate - shared with the original, mutation independence), again with weak references to every node alive (weakref.ref and a WeakKeyDictionary side table); repr text compared with the Lean model of __repr__ for ASCII programs; repr / pickle / deepcopy of one AST from 4 threads at once (switch interval 1e-6 s) must equal the single-threaded results")
+    ctx.rule(progs.RULE + "; plus programs with quotes, backslashes and non-ASCII characters in literals, empty blocks and absent children, and coordinates beyond 16 / 32 bits (a 70 000-character line, line numbers up to 2^40, a 600-character file name): eval(repr(ast)) in the namespace of c_ast (structural equality, generated text), pickle protocols 2..HIGHEST and copy.deepcopy (equality incl. coordinates, generated text, no mutable object - node, list or coordinate - shared with the original, mutation independence; two copies / two unpickles share nothing with each other, every rebuilt tree has the sharing pattern of the original, mutating one leaves the others and earlier pickles alone), again with weak references to every node alive (weakref.ref and a WeakKeyDictionary side table); repr text compared with the Lean model of __repr__ for ASCII programs; repr / pickle / deepcopy of one AST from 4 threads at once (switch interval 1e-6 s) must equal the single-threaded results")
     res = pmap(check, texts)
     ascii_idx = [i for i, t in enumerate(texts) if res[i] is not None and t.isascii()]
     dumps = pmap(_dump_of, [texts[i] for i in ascii_idx])
